@@ -19,6 +19,12 @@ CHECKS = {
  "C17": ("exploration", "runtime monitor: chunking-independent line-splitter state machine as reference; all partitions of all short streams enumerated, random streams/partitions/Syncs/level toggles beyond",
          "Every stream over {a,\\n} up to length 9 (quick) / 12 (thorough) is written in every one of its 2^(n-1) partitions (plus a Sync at one cut) and the logged messages must equal the reference splitter's; 20k (quick) / 1.5M (thorough) random programs add arbitrary bytes, 100 KiB lines, empty writes, Syncs and disabled-level phases.",
          "With disabled phases only 'nothing logged while disabled' and the return values are judged.", "3/C17"),
+ "C05": ("exploration", "runtime monitor: generated core compositions carry a recursive delivery model; per-leaf recorders, hook counters and counting marshalers observed for all 256 levels through all front ends; reported levels compared with observed delivery; AtomicLevel change histories",
+         "For N seeded compositions (tee/increase-level/hooks/lazy/with/sampler over observer, JSON and console leaves with static, atomic and arbitrary non-monotone enablers) every one of the 256 level values is logged and the set of leaves that recorded the entry, the hook invocation counts and marshaler calls must equal the model; Enabled/Level/LevelOf/gRPC V/slog Enabled must agree with delivery; shared AtomicLevels are changed and everything is re-judged.",
+         "Samplers appear only as pass-through (their drops are C11). V(g) outside 0..3 is a recorded don't-care.", "3/C05"),
+ "C20": ("exploration", "runtime monitor: own classifier of the accepted level texts vs 9 parsing entry points with sentinel targets; HTTP handler driven by intent-carrying request templates and random requests, invariants checked after every request against live loggers",
+         "All 256 values x text forms, every case mix of every name, special and random byte strings through Level/AtomicLevel UnmarshalText, Set, ParseLevel, ParseAtomicLevel, JSON, YAML and flag parsing (accepted set exact, target untouched on failure); seeded sequences of 1-30 HTTP requests (in-process recorder and a real loopback server for a subset) with per-request invariants: change only by PUT naming a valid level, exact level, reported level = level in force, 4xx otherwise, live loggers follow.",
+         "Non-ASCII case folding, JSON {\"level\":\"\"}, trailing JSON bytes and content types with parameters are recorded don't-care zones judged by the invariants only.", "3/C20"),
 }
 NOT_YET = {}
 props = [json.loads(l) for l in open(os.path.join(V, "properties.jsonl"))]
